@@ -143,7 +143,8 @@ def gen_base(rng):
         return ('subspec', lambda: Iter(f), lambda src: map(f, src))
     skips = set(rng.sample(range(12), rng.randint(1, 4)))
     stop_at = rng.choice([None, None, 3, 6, 0])
-    sentinel = rng.choice([None, 7, 'S'])
+    sentinel = rng.choice([None, 7, 7, 'S'])
+    equal_twin = sentinel == 7 and rng.random() < 0.5     # the stream also carries 7.0: EQUAL to the sentinel, not the sentinel
     kinds = 'skip'
 
     def sub(x, skips=skips, stop_at=stop_at):
@@ -151,6 +152,8 @@ def gen_base(rng):
             return STOP
         if x in skips:
             return SKIP
+        if equal_twin and x in (2, 5):
+            return 7.0
         if sentinel == 'S' and x == 9:
             return 'S'
         return x
@@ -164,7 +167,7 @@ def gen_base(rng):
                 return
             yield y
     if sentinel is not None:
-        kinds += '+sentinel'
+        kinds += '+sentinel' + ('+equal-twin' if equal_twin else '')
         mk = lambda: Iter(sub, sentinel=sentinel)
     else:
         mk = lambda: Iter(sub)
